@@ -22,8 +22,10 @@ from harness.tlc import MachineryError
 KINDS = ("n", "g", "p")
 MDNAME = {"n": "isotxsMetadata", "g": "gamisoMetadata", "p": "pmatrxMetadata"}
 # model label index -> (armi nuclide name, xs-id suffix).  Two suffixes of one nuclide, fissile and non-fissile nuclides.
-LABELS = {1: ("U235", "AA"), 2: ("U235", "AB"), 3: ("FE56", "AA"), 4: ("PU239", "AB"), 5: ("NA23", "AA"), 6: ("FE56", "AC"),
-          7: ("DUMP1", "AA"), 8: ("DUMP1", "AB")}     # 7, 8: dummy nuclides (nuclideBases.DummyNuclideBase), directory merges only
+# The id "NA" is a substring of the label NA23AA of the other id: a suffix test on the whole label confuses the two.
+LABELS = {1: ("U235", "AA"), 2: ("U235", "NA"), 3: ("NA23", "AA"), 4: ("PU239", "NA"), 5: ("FE56", "AA"), 6: ("FE56", "AC"),
+          7: ("DUMP1", "AA"), 8: ("DUMP1", "NA")}     # 7, 8: dummy nuclides (nuclideBases.DummyNuclideBase), directory merges only
+IDS = ("AA", "NA", "AC")                              # cross-section ids, in the order of LibraryMerge's IdOf
 FISSILE_NAMES = ("U235", "PU239")
 
 # group-structure ids: 1 and 2 have the same number of groups and different energies, 3 has one more group
@@ -396,10 +398,19 @@ def project_library(lib, srcs, nsrc, labels, pathmap=None, dummies=()):
     out["ggs"] = _match(ge, G_BOUNDS)
     ndv = getattr(lib, "_neutronDoseConversionFactors", None)
     gdv = getattr(lib, "_gammaDoseConversionFactors", None)
-    out["nd"] = 0 if ndv is None else (_match(ndv, {i: n_dose(i, out["ngs"]) for i in (1, 2)}) if out["ngs"] > 0 else -1)
-    out["gd"] = 0 if gdv is None else (_match(gdv, {i: g_dose(i, out["ggs"]) for i in (1, 2)}) if out["ggs"] > 0 else -1)
+    # dose factors are recognised whatever group structure the library carries (a refused merge may leave the two at odds)
+    def dose_id(v, fn, bounds):
+        if v is None:
+            return 0
+        hits = {_match(v, {i: fn(i, gs) for i in (1, 2)}) for gs in bounds}
+        hits.discard(-1)
+        return hits.pop() if len(hits) == 1 else -1
+
+    out["nd"] = dose_id(ndv, n_dose, N_BOUNDS)
+    out["gd"] = dose_id(gdv, g_dose, G_BOUNDS)
     vel = getattr(lib, "_neutronVelocity", None)
-    out["vel"] = 0 if vel is None else (_match(vel, {s: velocity(s, out["ngs"]) for s in range(1, nsrc + 1)}) if out["ngs"] > 0 else -1)
+    vhits = {_match(vel, {s: velocity(s, gs) for s in range(1, nsrc + 1)}) for gs in N_BOUNDS} - {-1} if vel is not None else {0}
+    out["vel"] = vhits.pop() if len(vhits) == 1 else -1
     hd = lib.pmatrxMetadata["hasDoseConversionFactor"]
     out["pdose"] = 0 if hd is None else 2 if hd is True else 1 if hd is False else -1
     out["meta"] = {}
@@ -421,6 +432,13 @@ def project_library(lib, srcs, nsrc, labels, pathmap=None, dummies=()):
         out["labels"] = [-1]                          # nuclideLabels and the nuclide table disagree (or a label is listed twice)
     else:
         out["labels"] = sorted(lab_ix.get(x, -2) for x in listed)     # -2: a label no source has
+    # the per-id view: getNuclides(id) must be the nuclides whose label ENDS with the id
+    out["ids"] = []
+    for xsid in IDS:
+        try:
+            out["ids"].append(sorted(lab_ix.get(n.containerKey, -2) for n in lib.getNuclides(xsid)))
+        except Exception:  # noqa: BLE001  observed as "could not be listed"
+            out["ids"].append([-1])
     nucs = []
     for li in labels:
         lab = label_of(li)
@@ -462,7 +480,7 @@ MACRO_NUC = {1: "U235", 2: "FE56", 3: "NA23", 4: "PU239"}   # nuclide 4 is in no
 
 
 class MacroWorld:
-    """The real library of one micro table (ISOTXS part + PMATRX part, written, re-read and merged by armi) and a block."""
+    """The real library of one micro table (ISOTXS + GAMISO + PMATRX parts, written, re-read and merged by armi), blocks."""
 
     def __init__(self, table, workdir):
         armi_ready()
@@ -472,10 +490,13 @@ class MacroWorld:
         self.table = table
         ng, ngam = table["ng"], table["ngam"]
         absparts, kinds = table["absParts"], table["scatKinds"]
-        nlib, plib = _new_lib(), _new_lib()
+        nlib, glib, plib = _new_lib(), _new_lib(), _new_lib()
         iso_file_metadata(nlib.isotxsMetadata, ng, 1, None, "ISOTXS", max_up=ng - 1)
         nlib.neutronEnergyUpperBounds = np.array([2.0 ** (ng - g) for g in range(ng)])
         nlib.neutronVelocity = np.array([1024.0 * (ng - g) for g in range(ng)])
+        iso_file_metadata(glib.gamisoMetadata, ngam, 1, None, "GAMISO", max_up=ngam - 1)
+        glib.gammaEnergyUpperBounds = np.array([2.0 ** (ngam - g) for g in range(ngam)])
+        glib.gamisoMetadata["gammaVelocity..NOT"] = [1.0] * ngam
         md = plib.pmatrxMetadata
         for k, v in (("numberCollapsingSpatialRegions", 0), ("numGammaGroups", ngam), ("numNeutronGroups", ng),
                      ("hasInPlateData", False), ("hasDoseConversionFactor", False), ("maxScatteringOrder", 0),
@@ -487,30 +508,31 @@ class MacroWorld:
         plib.neutronEnergyUpperBounds = np.array([2.0 ** (ng - g) for g in range(ng)])
         plib.gammaEnergyUpperBounds = np.array([2.0 ** (ngam - g) for g in range(ngam)])
         self.labels = []
+
+        def iso_spec(e, r, ngr):
+            rx = {name: vec(r["rx"][i]) for i, name in enumerate(absparts)}
+            return {"fis": e["fis"], "chi": ([1.0] + [0.0] * (ngr - 1)) if e["fis"] else None,
+                    "rx": {"nGamma": rx["nGamma"], "fission": rx["fission"], "neutronsPerFission": vec(r["nu"])},
+                    "opt": {name: (rx[name] if r["has"][absparts.index(name)] else None) for name in OPT_RX},
+                    "total": vec(r["total"]), "transport": vec(r["transport"]),
+                    "scat": {k: (mat(r["scat"][i]) if r["hasScat"][i] else None) for i, k in enumerate(kinds)},
+                    "efiss": frac(e["efiss"]), "ecapt": frac(e["ecapt"])}
+
         for e in table["entries"]:
             name = MACRO_NUC[e["nuc"]]
             label = nuclideBases.byName[name].label + e["sfx"]
             self.labels.append(label)
-            rx = {r: vec(e["rx"][i]) for i, r in enumerate(absparts)}
-            spec = {"fis": e["fis"], "chi": ([1.0] + [0.0] * (ng - 1)) if e["fis"] else None,
-                    "rx": {"nGamma": rx["nGamma"], "fission": rx["fission"], "neutronsPerFission": vec(e["nu"])},
-                    "opt": {r: (rx[r] if e["has"][absparts.index(r)] else None) for r in OPT_RX},
-                    "total": vec(e["total"]), "transport": vec(e["transport"]),
-                    "scat": {k: (mat(e["scat"][i]) if e["hasScat"][i] else None) for i, k in enumerate(kinds)},
-                    "efiss": frac(e["efiss"]), "ecapt": frac(e["ecapt"])}
-            fill_iso_nuclide(_new_nuc(nlib, label), "n", name, ng, spec)
+            fill_iso_nuclide(_new_nuc(nlib, label), "n", name, ng, iso_spec(e, e["n"], ng))
+            fill_iso_nuclide(_new_nuc(glib, label), "g", name, ngam, iso_spec(e, e["g"], ngam))
             fill_pmatrx_nuclide(_new_nuc(plib, label), ng, ngam,
                                 {"nheat": vec(e["nheat"]), "ndamage": vec(e["nheat"]),
                                  "gheat": vec(e["gheat"]) if e["hasGHeat"] else None})
         os.makedirs(workdir, exist_ok=True)
-        nf = os.path.join(workdir, "MACRO%d.isotxs" % table["table"])
-        pf = os.path.join(workdir, "MACRO%d.pmatrx" % table["table"])
-        _iomod("n").writeBinary(nlib, nf)
-        _iomod("p").writeBinary(plib, pf)
+        files = {k: os.path.join(workdir, "MACRO%d.%s" % (table["table"], ext)) for k, ext in (("n", "isotxs"), ("g", "gamiso"), ("p", "pmatrx"))}
         self.lib = xsLibraries.IsotxsLibrary()
-        self.lib.merge(_iomod("n").readBinary(nf))
-        self.lib.merge(_iomod("p").readBinary(pf))
-        self._block = None
+        for k, lib0 in (("n", nlib), ("g", glib), ("p", plib)):
+            _iomod(k).writeBinary(lib0, files[k])
+            self.lib.merge(_iomod(k).readBinary(files[k]))
 
     def block(self, sfx, dens):
         """A real HexBlock with one Custom-material component holding exactly the given number densities."""
@@ -525,9 +547,9 @@ class MacroWorld:
         b.p.envGroup = sfx[1]
         return b
 
-    def micro_total_scatter(self, i):
-        m = self.lib[self.labels[i]].micros.getTotalScatterMatrix()
-        return _dense(m)
+    def micro_total_scatter(self, i, rad="n"):
+        nuc = self.lib[self.labels[i]]
+        return _dense((nuc.micros if rad == "n" else nuc.gammaXS).getTotalScatterMatrix())
 
 
 def _dense(m):
@@ -545,17 +567,35 @@ def _flat(a):
     return a.tolist()
 
 
-def run_macro_case(world, case, empty_dict=False):
-    """Call the real functions on one composition.  Returns {quantity: array | "refused" | "None" | {"raises": name}};
-    quantities are "direct.<name>" (one call of a compute* function each) and "creator.<name>" (one
-    MacroscopicCrossSectionCreator.createMacrosFromMicros call on a real block, or "creator" alone if that call raised)."""
+XS_VECTORS = ("nuSigF", "total", "transport", "absorption", "removal")
+
+
+def _collection_fields(prefix, m, t):
+    out = {}
+    for r in t["absParts"]:
+        out[prefix + ".rx." + r] = _flat(m[r])
+    for k in XS_VECTORS:
+        out[prefix + "." + k] = _flat(m[k])
+    for k in t["scatKinds"]:
+        out[prefix + ".scat." + k] = _dense(m[k])
+    out[prefix + ".totalScatter"] = _dense(m.totalScatter)
+    return out
+
+
+def run_macro_case(world, case, mult_world, empty_dict=False):
+    """Call the real functions on one composition.  Returns {quantity: array | "refused" | "None" | {"raises": name}}:
+      direct.*  / gdirect.*   one computeMacroscopicGroupConstants / compute*Constants call each (neutron / gamma collection)
+      mult.*                  computeMacroscopicGroupConstants with multLib = the library of another table
+      creator.* / gcreator.*  MacroscopicCrossSectionCreator.createMacrosFromMicros on a real block, libType micros / gammaXS
+      names.*   / minimum.*   the same with nucNames / with minimumNuclideDensity as the case says
+    (a creator call that raised or was refused is reported once, under the bare prefix)."""
     from armi.nuclearDataIO import xsCollections as xc
     from armi.utils import units
 
     t = world.table
     sfx = case["sfx"]
     dens = {} if empty_dict else {MACRO_NUC[i + 1]: frac(q) for i, q in enumerate(case["comp"])}
-    lib = world.lib
+    lib, mlib = world.lib, mult_world.lib
     out = {}
 
     def guarded(fn):
@@ -575,52 +615,78 @@ def run_macro_case(world, case, empty_dict=False):
             return None if v is None else _flat(np.asarray(v, dtype=float) / scale)
         return f
 
-    for r in t["absParts"]:
-        out["direct.rx." + r] = guarded(flat(lambda r=r: xc.computeMacroscopicGroupConstants(r, dens, lib, sfx, libType="micros")))
-    out["direct.nuSigF"] = guarded(flat(lambda: xc.computeMacroscopicGroupConstants(
-        "fission", dens, lib, sfx, libType="micros", multConstant="neutronsPerFission")))
-    out["direct.total"] = guarded(flat(lambda: xc.computeMacroscopicGroupConstants("total", dens, lib, sfx, libType="micros")))
-    out["direct.transport"] = guarded(flat(lambda: xc.computeMacroscopicGroupConstants("transport", dens, lib, sfx, libType="micros")))
+    cmgc = xc.computeMacroscopicGroupConstants
+    for prefix, lt in (("direct", "micros"), ("gdirect", "gammaXS")):
+        for r in t["absParts"]:
+            out["%s.rx.%s" % (prefix, r)] = guarded(flat(lambda r=r, lt=lt: xc.computeMacroscopicGroupConstants(r, dens, lib, sfx, libType=lt)))
+        out[prefix + ".nuSigF"] = guarded(flat(lambda lt=lt: xc.computeMacroscopicGroupConstants(
+            "fission", dens, lib, sfx, libType=lt, multConstant="neutronsPerFission")))
+        out[prefix + ".total"] = guarded(flat(lambda lt=lt: xc.computeMacroscopicGroupConstants("total", dens, lib, sfx, libType=lt)))
+        out[prefix + ".transport"] = guarded(flat(lambda lt=lt: xc.computeMacroscopicGroupConstants("transport", dens, lib, sfx, libType=lt)))
     # the deposition constants are returned in J/cm; the specification states them in the library's unit (eV)
     out["direct.nheat"] = guarded(flat(lambda: xc.computeNeutronEnergyDepositionConstants(dens, lib, sfx), units.JOULES_PER_eV))
     out["direct.gheat"] = guarded(flat(lambda: xc.computeGammaEnergyDepositionConstants(dens, lib, sfx), units.JOULES_PER_eV))
     out["direct.fisE"] = guarded(flat(lambda: xc.computeFissionEnergyGenerationConstants(dens, lib, sfx)))
     out["direct.capE"] = guarded(flat(lambda: xc.computeCaptureEnergyGenerationConstants(dens, lib, sfx)))
+    # multipliers from ANOTHER library (multLib), the cross sections from this one
+    out["mult.nuSigFx"] = guarded(flat(lambda: xc.computeMacroscopicGroupConstants(
+        "fission", dens, lib, sfx, libType="micros", multConstant="neutronsPerFission", multLib=mlib)))
+    out["mult.fisEx"] = guarded(flat(lambda: xc.computeMacroscopicGroupConstants(
+        "fission", dens, lib, sfx, libType="micros", multConstant="efiss", multLib=mlib)))
+    out["mult.capEx"] = guarded(flat(lambda: xc.computeMacroscopicGroupConstants(
+        "nGamma", dens, lib, sfx, libType="micros", multConstant="ecapt", multLib=mlib)))
+    del cmgc
 
-    def creator():
-        b = world.block(sfx, dens)
-        return xc.MacroscopicCrossSectionCreator().createMacrosFromMicros(lib, b)
+    def creator(prefix, lib_type="micros", names=None, minimum=0.0):
+        def call():
+            b = world.block(sfx, dens)
+            return xc.MacroscopicCrossSectionCreator(minimumNuclideDensity=minimum).createMacrosFromMicros(lib, b, nucNames=names, libType=lib_type)
+        m = guarded(call)
+        if isinstance(m, (str, dict)):
+            out[prefix] = m
+        else:
+            out.update(_collection_fields(prefix, m, t))
 
-    m = guarded(creator)
-    if isinstance(m, (str, dict)):
-        out["creator"] = m
-    else:
-        for r in t["absParts"]:
-            out["creator.rx." + r] = _flat(m[r])
-        for k in ("nuSigF", "total", "transport", "absorption", "removal"):
-            out["creator." + k] = _flat(m[k])
-        for k in t["scatKinds"]:
-            out["creator.scat." + k] = _dense(m[k])
-        out["creator.totalScatter"] = _dense(m.totalScatter)
+    creator("creator")
+    creator("gcreator", lib_type="gammaXS")
+    for sel in case["sel"]:
+        if sel["tag"] == "names":
+            creator("names", names=[MACRO_NUC[i] for i in sel["names"]])
+        else:
+            creator("minimum", minimum=frac(sel["thr"]))
+    return out
+
+
+def _expected_collection(prefix, e, table, refused):
+    if refused:
+        return {prefix: "refused"}
+    out = {}
+    for i, r in enumerate(table["absParts"]):
+        out["%s.rx.%s" % (prefix, r)] = vec(e["rx"][i])
+    for k in XS_VECTORS:
+        out[prefix + "." + k] = vec(e[k])
+    for i, k in enumerate(table["scatKinds"]):
+        out[prefix + ".scat." + k] = mat(e["scat"][i])
+    out[prefix + ".totalScatter"] = mat(e["totalScatter"])
     return out
 
 
 def expected_macro(case, table):
     """The arrays TLC printed, as floats, under the quantity names run_macro_case reports."""
-    e = case["exp"]
     out = {}
-    for i, r in enumerate(table["absParts"]):
-        out["direct.rx." + r] = out["creator.rx." + r] = vec(e["rx"][i])
-    for k in ("nuSigF", "total", "transport"):
-        out["direct." + k] = out["creator." + k] = vec(e[k])
+    ref = case["refused"]
+    for prefix, rad in (("direct", "n"), ("gdirect", "g")):
+        e = case[rad]
+        for i, r in enumerate(table["absParts"]):
+            out["%s.rx.%s" % (prefix, r)] = "refused" if ref else vec(e["rx"][i])
+        for k in ("nuSigF", "total", "transport"):
+            out[prefix + "." + k] = "refused" if ref else vec(e[k])
     for k in ("nheat", "gheat", "fisE", "capE"):
-        out["direct." + k] = vec(e[k])
-    for k in ("absorption", "removal"):
-        out["creator." + k] = vec(e[k])
-    for i, k in enumerate(table["scatKinds"]):
-        out["creator.scat." + k] = mat(e["scat"][i])
-    out["creator.totalScatter"] = mat(e["totalScatter"])
-    if case["refused"]:
-        out = {k: "refused" for k in out if k.startswith("direct.")}
-        out["creator"] = "refused"
+        out["direct." + k] = "refused" if ref else vec(case["x"][k])
+    for k in ("nuSigFx", "fisEx", "capEx"):
+        out["mult." + k] = "refused" if ref else vec(case["x"][k])
+    out.update(_expected_collection("creator", case["n"], table, ref))
+    out.update(_expected_collection("gcreator", case["g"], table, ref))
+    for sel in case["sel"]:
+        out.update(_expected_collection(sel["tag"], sel["exp"], table, sel["refused"]))
     return out
